@@ -165,9 +165,17 @@ def _identity(pc, a: T, b: T):
     for v in vars_:
         n = f"v{v.id}"
         key_of[v.id] = n
+    spare = [f"X{i}" for i in range(6)]
+    spare_used: List[str] = []
+    names = list(spare) + names
     names += [key_of[v.id] for v in sorted(vars_, key=lambda v: -v.id)]
-    if not names:
-        names = ["dummy"]
+    term_of: Dict[str, T] = {key_of[v.id]: v for v in vars_}
+    for kind, x, n, c in atom_list:
+        if kind == "trig":
+            term_of[n] = tm.fn("sin", x)
+            term_of[c] = tm.fn("cos", x)
+        else:
+            term_of[n] = x
     F = _field(names, QQ, lex)
     K = F[0]
     gens = dict(zip(names, F[1:]))
@@ -304,8 +312,48 @@ def _identity(pc, a: T, b: T):
                 if key in seen:
                     subst[n] = gens[seen[key]]
                 else:
-                    seen[key] = n
-                    red[n] = rad
+                    # sqrt(u² · w) = |u| · sqrt(w) when the sign of u follows from the path condition
+                    done_split = False
+                    # (a) a multiple of an older atom's radicand by a small square factor (scaled copies)
+                    for okey, oname in list(seen.items()):
+                        if oname not in red or len(rad.numer.terms()) > 4000:
+                            continue
+                        try:
+                            quot = rad / red[oname]
+                        except ZeroDivisionError:
+                            continue
+                        if len(quot.numer.terms()) <= 3 and len(quot.denom.terms()) <= 3:
+                            spq = _square_split(quot, K)
+                            if spq is not None and spq[1] == 1:
+                                sgn = _sign_of(spq[0], pc, names, term_of)
+                                if sgn is not None:
+                                    subst[n] = spq[0] * gens[oname] * sgn
+                                    done_split = True
+                                    break
+                    sp = _square_split(rad, K) if not done_split else None
+                    if sp is not None:
+                        outer, inner = sp
+                        sgn = _sign_of(outer, pc, names, term_of)
+                        if sgn is not None:
+                            ikey = (inner.numer, inner.denom)
+                            if inner.numer.is_ground and inner.denom.is_ground:
+                                base = _const_sqrt(inner, K)
+                            elif ikey in seen:
+                                base = gens[seen[ikey]]
+                            elif spare:
+                                sname = spare.pop()
+                                seen[ikey] = sname
+                                red[sname] = inner
+                                spare_used.append(sname)
+                                base = gens[sname]
+                            else:
+                                base = None
+                            if base is not None:
+                                subst[n] = outer * base * sgn
+                                done_split = True
+                    if not done_split:
+                        seen[key] = n
+                        red[n] = rad
             else:
                 q = QQ(rad.numer.LC if rad.numer != 0 else 0) / QQ(rad.denom.LC)
                 num_, den_ = int(q.numerator), int(q.denominator)
@@ -351,6 +399,15 @@ def _identity(pc, a: T, b: T):
         if n in red:
             r = red[n]
             num = reduce_power(num, n, R(r.numer), R(r.denom))
+    for sname in spare_used:
+        if num != 0:
+            r = red[sname]
+            num = reduce_power(num, sname, R(r.numer), R(r.denom))
+            # the inner radicand may mention older atoms again
+            for kind, x, n, c in atom_list:
+                if n in red and num != 0:
+                    rr = red[n]
+                    num = reduce_power(num, n, R(rr.numer), R(rr.denom))
     if num == 0:
         return True, "numerator reduces to 0 modulo atom relations"
     return False, f"remainder with {len(num.terms())} terms"
@@ -370,3 +427,77 @@ def _compose_frac(num, gen, value, R, i):
     for k, cf in by_deg.items():
         out = out + cf * p**k * q ** (kmax - k)
     return out
+
+
+def _square_split(rad, K):
+    """rad = outer² · inner with outer non-trivial, or None."""
+    p, q = rad.numer, rad.denom
+    if len(p.terms()) > 600 or len(q.terms()) > 600:
+        return None
+    try:
+        cp, fp = p.factor_list()
+        cq, fq = q.factor_list()
+    except Exception:  # noqa: BLE001
+        return None
+    outer = K(1)
+    inner = K(cp) / K(cq)
+    nontrivial = False
+    for fac, e in fp:
+        if e >= 2:
+            outer = outer * K(fac) ** (e // 2)
+            nontrivial = True
+        if e % 2:
+            inner = inner * K(fac)
+    for fac, e in fq:
+        if e >= 2:
+            outer = outer / K(fac) ** (e // 2)
+            nontrivial = True
+        if e % 2:
+            inner = inner / K(fac)
+    if not nontrivial:
+        return None
+    return outer, inner
+
+
+def _const_sqrt(fe, K):
+    import math as _m
+
+    q = QQ(fe.numer.LC if fe.numer != 0 else 0) / QQ(fe.denom.LC)
+    a, b = int(q.numerator), int(q.denominator)
+    if a >= 0 and _m.isqrt(a) ** 2 == a and _m.isqrt(b) ** 2 == b:
+        return K(QQ(_m.isqrt(a), _m.isqrt(b)))
+    return None
+
+
+def _poly_to_term(pol, names, term_of) -> T:
+    out = tm.ZERO
+    for mon, coeff in pol.terms():
+        t = tm.const(__import__("fractions").Fraction(int(coeff.numerator), int(coeff.denominator)))
+        for n, e in zip(names, mon):
+            if e:
+                if n not in term_of:
+                    raise Unsupported("no term for generator " + n)
+                t = tm.mul(t, tm.powi(term_of[n], int(e)))
+        out = tm.add(out, t)
+    return out
+
+
+def _sign_of(fe, pc, names, term_of):
+    """+1 / -1 if the path condition implies fe >= 0 / fe <= 0 (decided by SMT), else None."""
+    from . import solve
+
+    try:
+        t = tm.div(_poly_to_term(fe.numer, names, term_of), _poly_to_term(fe.denom, names, term_of))
+    except Unsupported:
+        return None
+    for sgn, goal in ((1, tm.le(tm.ZERO, t)), (-1, tm.le(t, tm.ZERO))):
+        try:
+            ab, facts = solve.abstract(list(pc) + [goal], limit=6)
+            r, _, _ = solve.z3_check(ab[:-1] + facts, ab[-1], 3000, want_model=False)
+            if r != "unsat":
+                r, _, _ = solve.z3_check(list(pc), goal, 3000, want_model=False)
+        except Unsupported:
+            return None
+        if r == "unsat":
+            return sgn
+    return None
